@@ -29,6 +29,19 @@
 #include <sys/wait.h>
 #include <unistd.h>
 
+// -DC21_ASAN (thorough tier): the executable is LINKED with the AddressSanitizer runtime (the code is
+// not instrumented: include/mujoco/mjsan.h does not compile with gcc under -fsanitize=address, and an
+// instrumented engine_io.c needs the whole library built that way).  The runtime's interceptors still
+// see every malloc/free/memcpy/memset of the process: the hooks then really free blocks (double free,
+// invalid free, use of a freed block through memcpy/memset are reported by the runtime and end the
+// child with exit code 77), pointers in the hook table are masked so that LeakSanitizer does not
+// count the table as a reference, and a leak check runs when a scenario completes (lsan=0/1).
+#ifdef C21_ASAN
+#include <sanitizer/lsan_interface.h>
+#define ENC(p) ((void*)((uintptr_t)(p) ^ 0x5A5A5A5A5A5A5A5AULL))
+#else
+#define ENC(p) (p)
+#endif
 #define MAXA 4096
 #define TRCAP (1 << 18)
 #define NMODEL 64
@@ -56,17 +69,26 @@ static void* hook_malloc(size_t sz) {
   void* p = aligned_alloc(64, r);
   if (!p) { ev("HOSTOOM "); _exit(98); }
   memset(p, 0xA5, r < 8192 ? r : 8192);   // junk at the start, where the headers and pointers live
-  blk[k] = p; bsz[k] = sz; bfreed[k] = 0;
+  blk[k] = ENC(p); bsz[k] = sz; bfreed[k] = 0;
   ev("A%d:%zu ", k, sz);
   return p;
 }
 static void hook_free(void* p) {
-  for (int k = 0; k < nattempt && k < MAXA; k++) {
-    if (blk[k] == p) {
-      if (bfreed[k]) { ev("FF%d ", k); return; }
-      bfreed[k] = 1; memset(p, 0xDD, bsz[k] < 8192 ? bsz[k] : 8192); ev("F%d ", k); return;   // quarantine, poison
+  int dead = -1;
+  for (int k = (nattempt < MAXA ? nattempt : MAXA) - 1; k >= 0; k--) {
+    if (blk[k] && blk[k] == ENC(p)) {
+      if (bfreed[k]) { if (dead < 0) dead = k; continue; }
+      bfreed[k] = 1;
+      ev("F%d ", k);
+#ifdef C21_ASAN
+      free(p);                                   // AddressSanitizer poisons and quarantines the block
+#else
+      memset(p, 0xDD, bsz[k] < 8192 ? bsz[k] : 8192);   // quarantine (never reused inside a run), poison
+#endif
+      return;
     }
   }
+  if (dead >= 0) { ev("FF%d ", dead); return; }
   ev("G ");
   free(p);
 }
@@ -150,7 +172,9 @@ static Base base[NMODEL];
 static char g_savepath[1024] = "/dev/null";
 
 static mjSpec* base_spec(const Base* b) {
-  return b->kind == 0 ? mjg_spec(b->seed, b->feat, b->nbody) : plug_spec(b->np);
+  mjSpec* s = b->kind == 0 ? mjg_spec(b->seed, b->feat, b->nbody) : plug_spec(b->np);
+  s->memory = 1 << 20;   // 1 MB arena instead of the default: _resetData clears the whole arena in every run
+  return s;
 }
 
 static int size_index(const char* want) {
@@ -294,6 +318,9 @@ static int run_one(const char* scen, char mode, int idx, int rej, const int* fai
     ev("| live:");
     for (int k = 0; k < nattempt && k < MAXA; k++) if (blk[k] && !bfreed[k]) ev("%d,", k);
     ev(" n=%d", nattempt);
+#ifdef C21_ASAN
+    ev(" lsan=%d", __lsan_do_recoverable_leak_check() ? 1 : 0);
+#endif
     _exit(0);
   }
   int st = 0;
